@@ -152,6 +152,9 @@ type vfConcTarget struct {
 	flush      func() error
 	write      func() error
 	exact      bool // a k=all search must contain every document that is visible
+	// resident reports the ids the index physically holds (nil where there is no accessor): used at
+	// quiescence for the approximate kind, whose searches cannot prove that nothing was lost
+	resident func() map[uint32]bool
 	// store only
 	store           *PersistentHybridIndex
 	removeMayRefuse bool
@@ -174,6 +177,18 @@ func vfBuildConcTarget(c *vfC11Case, dir string) (*vfConcTarget, error) {
 		}
 		idx := ut.idx
 		t.exact = c.Target != "hnsw"
+		if hn, ok := idx.(*HNSWIndex); ok {
+			t.resident = func() map[uint32]bool {
+				snap := vfHNSWSnapOf(hn)
+				out := map[uint32]bool{}
+				for id := range snap.Adj0 {
+					if !snap.Deleted[id] {
+						out[id] = true
+					}
+				}
+				return out
+			}
+		}
 		t.add = func(id uint32, vec []float32) error { return idx.Add(*NewVectorNodeWithID(id, vfCloneF32(vec))) }
 		t.remove = func(id uint32) error { return idx.Remove(*NewVectorNodeWithID(id, nil)) }
 		t.search = func(q []float32) ([]uint32, error) {
@@ -604,6 +619,14 @@ func vfC11RunCase(c vfC11Case, ctx *vfCtx) *vfViolation {
 	got := map[uint32]bool{}
 	for _, id := range final {
 		got[id] = true
+	}
+	if t.resident != nil {
+		have := t.resident()
+		for id, l := range lives {
+			if !l.removed && !have[id] {
+				return vfFail("%s: at quiescence document %d (added successfully under concurrency, never removed) is not a live vertex of the index: the insert was lost (%d goroutines)", c.Target, id, G)
+			}
+		}
 	}
 	for id, l := range lives {
 		if l.removed && got[id] {
